@@ -74,6 +74,19 @@ fn main() {
             };
             std::process::exit(parent_main(prop.as_ref(), a));
         }
+        "dump" => {
+            let dir = PathBuf::from(kv.get("dir").cloned().unwrap_or_else(|| "corpus".into()));
+            let per: u64 = kv.get("n").and_then(|s| s.parse().ok()).unwrap_or(40);
+            std::fs::create_dir_all(&dir).unwrap();
+            for (si, seg) in prop.plan(tier).iter().enumerate() {
+                for j in 0..per.min(seg.count) {
+                    // spread over the segment so that all size classes occur
+                    let jj = j * (seg.count / per.min(seg.count)).max(1);
+                    let bytes = engine::rng::case_bytes(seed, prop.id(), si, seg, jj);
+                    std::fs::write(dir.join(format!("s{si}-{jj}")), bytes).unwrap();
+                }
+            }
+        }
         _ => {
             eprintln!("unknown mode {mode}");
             std::process::exit(2);
